@@ -468,6 +468,8 @@ func c06(c *Ctx) (*report.Result, error) {
 	checkClientRecvLimit(c, res, "O6.14")
 	res.RuleDoc["O6.15"] = "the translating stream wrapper never withholds a message: every path of streamTranslator.SendMsg / RecvMsg reaches the underlying ServerStream's method (a translator's error is logged, the message is relayed as it is)"
 	checkStreamTranslatorForwards(c, res, "O6.15")
+	res.RuleDoc["O6.20"] = "a batch that needs the UTF-8 repair does not kill the relay: every WithLabelValues call with an explicit value list on the decode path (codec, interceptor, compat, proxy, transport) passes as many values as its vector has labels (same analysis as O17.9) - the codec runs inside gRPC's RecvMsg on the forwarder's listener goroutine, where a prometheus panic ends the process, and after the restart the source sends the same batch again"
+	checkMetricLabelArity(c, res, "O6.20", []string{"proto/compat/", "interceptor/", "proxy/", "transport/"}, 15)
 	res.RuleDoc["O6.19"] = "an unreachable source ends the relay at once: no call option of the module asks gRPC to wait for a ready connection (same analysis as O11.9) - with wait-for-ready on streams, StreamForwarder.Run blocks in the stream open while no session exists, before its workers start: the handler does not return and the initiator keeps a healthy-looking stream with nobody behind it"
 	checkNoWaitForReady(c, res, "O6.19")
 	res.RuleDoc["O6.18"] = "a source side that fails silently still ends the relay: both yamux session factories hand yamux a config with keep-alive enabled (same analysis as O10.12) - over the mux transport the keep-alive is the only thing that closes a session whose peer stopped answering without a FIN; without it both forwarder goroutines stay in Recv, the initiator keeps a half-open stream and the remote proxy keeps its source stream"
